@@ -696,6 +696,7 @@ pub fn adjust_commit(w: &mut World, _p: usize, _g: usize, spec: &mut CommitSpec)
         let latest = w.groups[_g].log.len() as u64;
         if latest >= 1 {
             spec.res_psks.push(0);
+            spec.res_first = w.prng.chance(1, 2);
         }
     }
     if w.cfg.knob("psk") == Some(1) && w.prng.chance(1, 4) {
